@@ -1,4 +1,277 @@
-import VermouthModel.C01
+import VermouthProofs.C01_Finish
+/-!
+# C01 — resolution transformation conserves atoms, residues and connectivity
+
+Model: `VermouthModel/C01.lean` (`assemble` = `do_mapping` for block mappings, given the matches in
+the order the real matcher yields them; `C12.Mol.merge` = `merge_molecule`).  Everything below is
+for all molecules, all lists of placements, all blocks: no bound on sizes, no hypothesis on key
+numbering.  `order ps` is the processing order; `Off` are the offsets `merge_molecule` uses
+(number of particles so far, resid and charge group of the last particle); `nodesSpec`,
+`logSpec`, `intersSpec`, `edgesSpec`, `spawnedSpec` are the closed forms: concatenation, in
+processing order, of what each placement contributes at its offsets.
+
+The matcher is not part of these theorems (it is a reference, `refMatches` = `Iso.allIsosP`,
+see `placements_exact`); modification mappings are not modelled.
+-/
 namespace C01
-theorem placeholder : order [] = [] := rfl
+open C12
+
+def Result.hasEdge (r : Result) (x y : Int) : Bool := r.edges.contains (x, y) || r.edges.contains (y, x)
+
+/-- key and block attributes (name, resid, charge group) of an output particle -/
+def Bead.core (b : Bead) : Int × Attrs := (b.key, { name := b.name, resid := b.resid, cg := b.cg })
+
+/-! ## ordering of the matches (do_mapping.py:569-585) -/
+
+/-- every match is placed exactly once -/
+theorem order_perm (ps : List Placement) : (order ps).Perm ps := order_perm' ps
+
+/-- placements are processed by increasing lowest atom key -/
+theorem order_sorted (ps : List Placement) : (order ps).Pairwise (fun a b => minKey a ≤ minKey b) :=
+  order_sorted' ps
+
+/-- matches with the same lowest atom key are processed in reversed order of discovery -/
+theorem order_ties (ps : List Placement) (k : Int) :
+    (order ps).filter (fun p => minKey p == k) = (ps.filter (fun p => minKey p == k)).reverse :=
+  order_ties' ps k
+
+/-! ## one copy of the target block per placement, in order -/
+
+theorem beadOf_core (m : MolIn) (st : St) (n : Int × Attrs) : (beadOf m st n).core = n := by
+  obtain ⟨k, a⟩ := n
+  unfold beadOf Bead.core
+  split
+  · rfl
+  · split <;> rfl
+
+/-- The output particle table (key, name, resid, charge group) is the concatenation, in
+processing order, of each placement's block nodes under the key shift and offsets of
+`merge_molecule`: exactly one copy per placement, nothing else. -/
+theorem assemble_nodes (m : MolIn) (ps : List Placement) (r : Result) (h : assemble m ps = .ok r) :
+    r.beads.map Bead.core = nodesSpec Off.zero (order ps) := by
+  obtain ⟨hok, rfl⟩ := assemble_ok m ps r h
+  unfold finish
+  simp only [List.map_map]
+  rw [(withInterEdges_spec m _ hok).1, (placeAll_spec _ hok).1]
+  have : (Bead.core ∘ beadOf m (placeAll (order ps))) = id := by
+    funext n; exact beadOf_core m _ n
+  rw [this, List.map_id]
+
+/-- reading of `shiftNodes`: the `j`-th node of the block gets key `n + 1 + j`, its resid is the
+block-local resid (default 1) plus `roff`, its charge group the block-local one plus `coff` -/
+theorem shiftNodes_getElem (o : Off) (b : Mol) (j : Nat) :
+    (shiftNodes o b)[j]? =
+      (b.nodes[j]?).map (fun n => ((o.n : Int) + 1 + (j : Int),
+        { n.2 with resid := some (n.2.resid.getD 1 + o.roff), cg := some (n.2.cg.getD 1 + o.coff) })) := by
+  unfold shiftNodes
+  generalize ((o.n : Int) + 1) = s
+  induction b.nodes generalizing s j with
+  | nil => simp [enumFrom]
+  | cons x l ih =>
+    obtain ⟨k, a⟩ := x
+    cases j with
+    | zero => simp [enumFrom, Attrs.shift]
+    | succ j =>
+      simp only [List.map_cons, enumFrom, List.getElem?_cons_succ, ih j (s + 1)]
+      cases l[j]? with
+      | none => simp
+      | some n =>
+        simp only [Option.map_some, Int.natCast_add, Int.natCast_one, Option.some.injEq, Prod.mk.injEq, and_true]
+        omega
+
+/-- `assemble_resid`: the particles of the placement that follows the prefix `pre` are its block
+nodes numbered from the number of particles so far, with resid = block-local resid + resid of
+the last particle of the prefix (0 when there is none); same for the charge group. -/
+theorem assemble_resid (m : MolIn) (ps : List Placement) (r : Result) (h : assemble m ps = .ok r)
+    (pre post : List Placement) (p : Placement) (hsplit : order ps = pre ++ p :: post) :
+    let o := Off.zero.after pre
+    r.beads.map Bead.core = nodesSpec Off.zero pre ++ shiftNodes o p.block ++ nodesSpec (o.next p.block) post
+    ∧ o.n = (nodesSpec Off.zero pre).length
+    ∧ o.roff = (match lastA (nodesSpec Off.zero pre) with | none => 0 | some a => a.resid.getD 1)
+    ∧ o.coff = (match lastA (nodesSpec Off.zero pre) with | none => 0 | some a => a.cg.getD 1) := by
+  refine ⟨?_, ?_, ?_, ?_⟩
+  · rw [assemble_nodes m ps r h, hsplit, nodesSpec_append, nodesSpec, List.append_assoc]
+  · simpa [Off.zero] using after_n Off.zero pre
+  · exact (after_offsets Off.zero pre).1
+  · exact (after_offsets Off.zero pre).2
+
+theorem lastA_mem (l : List (Int × Attrs)) (a : Attrs) (h : lastA l = some a) : ∃ p ∈ l, p.2 = a := by
+  induction l with
+  | nil => cases h
+  | cons x r ih =>
+    cases r with
+    | nil => simp only [lastA, Option.some.injEq] at h; exact ⟨x, List.mem_cons_self, h⟩
+    | cons y r' =>
+      obtain ⟨q, hq, hqa⟩ := ih h
+      exact ⟨q, List.mem_cons_of_mem _ hq, hqa⟩
+
+/-- every block is a single residue: non-empty, all block-local resids 1 (or absent) -/
+def SingleResidue (p : Placement) : Prop :=
+  p.block.nodes ≠ [] ∧ ∀ n ∈ p.block.nodes, n.2.resid.getD 1 = 1
+
+theorem after_roff_single (o : Off) (pre : List Placement) (hs : ∀ q ∈ pre, SingleResidue q) :
+    (o.after pre).roff = o.roff + (pre.length : Int) := by
+  induction pre generalizing o with
+  | nil => simp [Off.after]
+  | cons q pre ih =>
+    have hq := hs q List.mem_cons_self
+    simp only [Off.after]
+    rw [ih _ (fun x hx => hs x (List.mem_cons_of_mem _ hx))]
+    unfold Off.next
+    cases hl : lastA q.block.nodes with
+    | none => exact absurd ((lastA_none_iff _).1 hl) hq.1
+    | some a =>
+      obtain ⟨n, hn, rfl⟩ := lastA_mem _ _ hl
+      simp only [hq.2 n hn, List.length_cons, Int.natCast_add, Int.natCast_one]
+      omega
+
+theorem mem_enumFrom (l : List (Int × Attrs)) (s : Int) (x : Int × Attrs) (hx : x ∈ enumFrom s l) :
+    ∃ p ∈ l, x.2 = p.2 := by
+  induction l generalizing s with
+  | nil => cases hx
+  | cons y r ih =>
+    obtain ⟨k, a⟩ := y
+    simp only [enumFrom, List.mem_cons] at hx
+    rcases hx with rfl | hx
+    · exact ⟨(k, a), List.mem_cons_self, rfl⟩
+    · obtain ⟨p, hp, h⟩ := ih _ hx
+      exact ⟨p, List.mem_cons_of_mem _ hp, h⟩
+
+/-- `resid_consecutive`: when every block is a single residue, the particles of the `i`-th
+placement (counting from 1) all have resid `i`: residues are numbered 1, 2, …, n in placement order. -/
+theorem resid_consecutive (m : MolIn) (ps : List Placement) (r : Result) (h : assemble m ps = .ok r)
+    (hs : ∀ q ∈ order ps, SingleResidue q)
+    (pre post : List Placement) (p : Placement) (hsplit : order ps = pre ++ p :: post) :
+    r.beads.map Bead.core = nodesSpec Off.zero pre ++ shiftNodes (Off.zero.after pre) p.block
+        ++ nodesSpec ((Off.zero.after pre).next p.block) post
+    ∧ ∀ n ∈ shiftNodes (Off.zero.after pre) p.block, n.2.resid = some ((pre.length : Int) + 1) := by
+  refine ⟨(assemble_resid m ps r h pre post p hsplit).1, ?_⟩
+  intro n hn
+  have hpre : ∀ q ∈ pre, SingleResidue q := fun q hq => hs q (by rw [hsplit]; exact List.mem_append_left _ hq)
+  have hp : SingleResidue p := hs p (by rw [hsplit]; simp)
+  have hro := after_roff_single Off.zero pre hpre
+  unfold shiftNodes at hn
+  obtain ⟨q, hq, hnq⟩ := mem_enumFrom _ _ _ hn
+  obtain ⟨q0, hq0, rfl⟩ := List.mem_map.1 hq
+  rw [hnq]
+  simp only [Attrs.shift, hp.2 q0 hq0]
+  rw [hro]
+  simp only [Off.zero, Option.some.injEq]
+  omega
+
+/-! ## intra-block interactions and bonds are copied -/
+
+/-- The interaction table is the concatenation, in processing order, of every placement's block
+interactions with their atoms renamed by the key shift (`renameInters`: the atom at position `i`
+of the block becomes `n + 1 + i`): one copy per placement, nothing lost, nothing added. -/
+theorem assemble_block_copy_interactions (m : MolIn) (ps : List Placement) (r : Result)
+    (h : assemble m ps = .ok r) : r.inters = intersSpec Off.zero (order ps) := by
+  obtain ⟨hok, rfl⟩ := assemble_ok m ps r h
+  unfold finish
+  simp only
+  rw [(withInterEdges_spec m _ hok).2.1, (placeAll_spec _ hok).2.2.2.2.2.1]
+
+theorem result_hasEdge (m : MolIn) (ps : List Placement) (r : Result) (h : assemble m ps = .ok r) (x y : Int) :
+    r.hasEdge x y = true ↔
+      ((x, y) ∈ edgesSpec Off.zero (order ps) ∨ (y, x) ∈ edgesSpec Off.zero (order ps))
+      ∨ (x, y) ∈ interEdges m (placeAll (order ps)) ∨ (y, x) ∈ interEdges m (placeAll (order ps)) := by
+  obtain ⟨hok, rfl⟩ := assemble_ok m ps r h
+  have := (withInterEdges_spec m _ hok).2.2 x y
+  rw [(placeAll_spec _ hok).2.2.2.2.2.2 x y] at this
+  exact this
+
+/-- `assemble_block_copy`: every bond of the block (self loops excepted) is present in the copy made
+for a placement, between the particles its end points were renamed to. -/
+theorem assemble_block_copy (m : MolIn) (ps : List Placement) (r : Result) (h : assemble m ps = .ok r)
+    (pre post : List Placement) (p : Placement) (hsplit : order ps = pre ++ p :: post)
+    (u v : Int) (huv : (u, v) ∈ p.block.edges) :
+    ∃ u' v', corrOf p.block.keys ((Off.zero.after pre).n : Int) u = some u'
+      ∧ corrOf p.block.keys ((Off.zero.after pre).n : Int) v = some v'
+      ∧ (u' ≠ v' → r.hasEdge u' v' = true) := by
+  obtain ⟨hok, _⟩ := assemble_ok m ps r h
+  have hok' : ((pre ++ [p]).foldl applyBlock {}).err = none := by
+    have : order ps = (pre ++ [p]) ++ post := by rw [hsplit]; simp
+    unfold placeAll at hok
+    rw [this] at hok
+    exact foldl_append_err _ _ _ hok
+  -- the renaming of the block edges succeeded when `p` was placed
+  rw [List.foldl_append] at hok'
+  have hpre : (pre.foldl applyBlock {}).err = none := by
+    cases he : (pre.foldl applyBlock {}).err with
+    | none => rfl
+    | some e => rw [List.foldl_cons, List.foldl_nil, applyBlock_err _ _ e he, he] at hok'; cases hok'
+  obtain ⟨_, hinv, _⟩ := fold_spec pre {} Off.zero inv_empty rfl hpre
+  have hstep := applyBlock_spec _ p _ hinv hpre (by simpa using hok')
+  have hsome := hstep.2.2.2.2.2.2.2.2.2.2.2
+  cases hre : renameEdges p.block.keys ((Off.zero.after pre).n : Int) p.block.edges with
+  | none => rw [hre] at hsome; cases hsome
+  | some re =>
+    obtain ⟨u', v', h1, h2, h3⟩ := renameEdges_complete _ _ _ _ hre (u, v) huv
+    refine ⟨u', v', h1, h2, ?_⟩
+    intro hne
+    rw [result_hasEdge m ps r h]
+    left; left
+    rw [mem_edgesSpec]
+    exact ⟨pre, p, post, hsplit, by simp [stepEdges, hre, h3 hne]⟩
+
+/-! ## the stashed residue number -/
+
+/-- `stash_old_resid`: `_old_resid` of a particle is the input resid of its reference atom when the
+mapping names one, otherwise the input resid of its first constituent atom; the renumbered resid
+is never touched by it. -/
+theorem stash_old_resid (m : MolIn) (st : St) (n : Int × Attrs) (ws : List (Int × Rat))
+    (hws : st.outToMol.lookup n.1 = some ws) :
+    (beadOf m st n).resid = n.2.resid
+    ∧ (beadOf m st n).atoms = ws.map Prod.fst ∧ (beadOf m st n).weights = ws
+    ∧ (∀ a, (st.refs.lookup n.1).bind m.atom? = some a → (beadOf m st n).oldResid = some a.resid)
+    ∧ ((st.refs.lookup n.1).bind m.atom? = none →
+        (beadOf m st n).oldResid = ((ws.map Prod.fst).filterMap m.atom?).head?.map (·.resid)) := by
+  cases hr : (st.refs.lookup n.1).bind m.atom? with
+  | none => simp [beadOf, hws, hr]
+  | some a => simp [beadOf, hws, hr]
+
+/-! ## weights -/
+
+/-- `weights_exact`: under `Functional` (no two placements assign different weights to the same
+atom/particle pair — automatic when the matches are dictionaries and blocks have distinct keys),
+the weight table of the particle with key `k` is exactly `{a ↦ w | (a, k, w) ∈ logSpec}`:
+`mem_logSpec`/`mem_stepEntries` unfold membership into "some placement maps `a ↦ k` with `w`, or
+`k` is a particle of that placement nothing maps to, `a` is one of its atoms and `w = 0`". -/
+theorem weights_exact (m : MolIn) (ps : List Placement) (r : Result) (h : assemble m ps = .ok r)
+    (hf : Functional (logSpec Off.zero (order ps))) (b : Bead) (hb : b ∈ r.beads) (a : Int) (w : Rat) :
+    b.weights.lookup a = some w ↔ (a, b.key, w) ∈ logSpec Off.zero (order ps) := by
+  obtain ⟨hok, rfl⟩ := assemble_ok m ps r h
+  unfold finish at hb
+  simp only [List.mem_map] at hb
+  obtain ⟨n, _, rfl⟩ := hb
+  have hcore := beadOf_core m (placeAll (order ps)) n
+  have hkey : (beadOf m (placeAll (order ps)) n).key = n.1 := by
+    have := congrArg Prod.fst hcore; simpa [Bead.core] using this
+  rw [hkey, ← get2_addEntriesRev_iff _ hf a n.1 w, ← (placeAll_spec _ hok).2.2.1]
+  unfold get2
+  cases hl : (placeAll (order ps)).outToMol.lookup n.1 with
+  | none =>
+    unfold beadOf; simp [hl]
+  | some ws =>
+    rw [(stash_old_resid m (placeAll (order ps)) n ws hl).2.2.1]; rfl
+
+/-- … and which pairs are in `logSpec`: the contribution of one placement at its offsets. -/
+theorem weights_source (ps : List Placement) (a k : Int) (w : Rat)
+    (hok : (placeAll (order ps)).err = none) :
+    (a, k, w) ∈ logSpec Off.zero (order ps) ↔
+      ∃ pre p post, order ps = pre ++ p :: post ∧
+        ((∃ ws blk, (a, ws) ∈ p.molToBlock ∧ (blk, w) ∈ ws
+            ∧ corrOf p.block.keys ((Off.zero.after pre).n : Int) blk = some k)
+         ∨ (k ∈ stepSpawned (Off.zero.after pre) p ∧ a ∈ p.atoms ∧ w = 0)) := by
+  rw [mem_logSpec]
+  constructor
+  · rintro ⟨pre, p, post, hsplit, he⟩
+    refine ⟨pre, p, post, hsplit, ?_⟩
+    have hs := weightEntries_isSome ps pre p post hsplit hok
+    exact (mem_stepEntries _ p a k w hs).1 he
+  · rintro ⟨pre, p, post, hsplit, he⟩
+    refine ⟨pre, p, post, hsplit, ?_⟩
+    have hs := weightEntries_isSome ps pre p post hsplit hok
+    exact (mem_stepEntries _ p a k w hs).2 he
+
 end C01
